@@ -9,6 +9,7 @@ import Dashu.Driver.TextDebug
 import Dashu.Model.Text.Pieces
 import Dashu.Model.Text.ChunksGuard
 import Dashu.Model.Text.BytesBE
+import Dashu.Model.Text.ChunksBuf
 /-
   Driver of group `text` (C07): integer formatting, parsing, byte and chunk encodings.
   For every case the *required* result (specification side: `digits`/`pad_integral`/grammar/
@@ -328,9 +329,11 @@ def dispatch : Dispatch := fun W op args =>
   | "u.chunks", [n, k] => do
     let n ← parseNat n; let k ← parseDecNat k
     let spec := if k = 0 then "panic ChunkBitsZero" else "ok " ++ chunksStr (chunksSpecG n k)   -- = chunksSpec (never forms 2^k for k ≥ bit_len)
-    let model := match toChunksW W n k with
+    -- round 6: the model with the chunk buffers of fix 80bcfde as bounded arrays (Model/Text/ChunksBuf.lean);
+    -- `Props/C07.to_chunks_buffers_never_overrun`: it never fails and equals the positional chunks
+    let model := match toChunksB W n k with
       | .ok cs => "ok " ++ chunksStr cs
-      | .error .chunkBitsZero => "panic ChunkBitsZero"
+      | .error e => "panic " ++ e.name
     pure (flag model spec false)
   | "u.from_chunks", k :: cs => do
     let k ← parseDecNat k
